@@ -41,7 +41,7 @@ class Kernel:
     """
 
     def __init__(self, coqname, file, qualname, params, ret, attrs=None, seqs=(),
-                 calls=None, ident_calls=(), alias=None, retmode='value', uses_fuel=True):
+                 calls=None, ident_calls=(), alias=None, retmode='value', uses_fuel=True, pyparams=None):
         self.coqname = coqname
         self.file = file
         self.qualname = qualname
@@ -54,12 +54,16 @@ class Kernel:
         self.alias = alias or {}
         self.retmode = retmode    # 'value' | 'truth' (truthiness of the result is specified)
         self.uses_fuel = uses_fuel
+        self.pyparams = pyparams  # coq names of the positional python parameters (closures), or None: by name
 
 
 def find_function(tree, qualname):
     parts = qualname.split('.')
     node = tree
+    enclosing = []
     for part in parts:
+        if isinstance(node, ast.FunctionDef):
+            enclosing.append(node)
         found = None
         for child in ast.walk(node) if False else ast.iter_child_nodes(node):
             if isinstance(child, (ast.FunctionDef, ast.ClassDef)) and child.name == part:
@@ -77,7 +81,34 @@ def find_function(tree, qualname):
         node = found
     if not isinstance(node, ast.FunctionDef):
         raise Unsupported(f'{qualname!r} is not a function')
-    return node
+    return node, enclosing
+
+
+def enclosing_aliases(enclosing):
+    """name -> dotted chain for the simple bindings `name = a.b.c` of the enclosing functions (closure
+    variables are resolved through them, so the translation does not depend on how they are called and
+    does depend on what they are bound to).  A name bound more than once is not resolvable."""
+    alias, count = {}, {}
+    for f in enclosing:
+        for st in ast.walk(f):
+            targets = []
+            if isinstance(st, ast.Assign):
+                targets = st.targets
+            elif isinstance(st, (ast.AugAssign, ast.AnnAssign)):
+                targets = [st.target]
+            for t in targets:
+                for n in ast.walk(t):
+                    if isinstance(n, ast.Name):
+                        count[n.id] = count.get(n.id, 0) + 1
+        for st in f.body:
+            if isinstance(st, ast.Assign) and len(st.targets) == 1 and isinstance(st.targets[0], ast.Name):
+                ch = chain_of(st.value)
+                if ch is not None:
+                    head, _, rest = ch.partition('.')
+                    if head in alias:
+                        ch = alias[head] + ('.' + rest if rest else '')
+                    alias[st.targets[0].id] = ch
+    return {n: ch for n, ch in alias.items() if count.get(n, 0) == 1}
 
 
 def chain_of(node):
@@ -91,9 +122,17 @@ def chain_of(node):
 
 
 class Translator:
-    def __init__(self, kernel, func):
+    def __init__(self, kernel, func, enclosing=()):
         self.k = kernel
         self.func = func
+        self.enclosing_alias = enclosing_aliases(enclosing)
+        # positional parameters of a closure are mapped by position (kernel.pyparams), not by name
+        self.param_alias = {}
+        if kernel.pyparams is not None:
+            args = [a.arg for a in func.args.args]
+            if len(args) != len(kernel.pyparams) or func.args.vararg or func.args.kwarg or func.args.kwonlyargs:
+                raise Unsupported(f'signature of {kernel.qualname} changed')
+            self.param_alias = dict(zip(args, kernel.pyparams))
         self.tmp = 0
         self.defined = set()      # python locals currently defined (in scope)
         self.local_alias = dict(kernel.alias)  # python local -> python chain (resolved aliases)
@@ -102,6 +141,17 @@ class Translator:
     def fresh(self):
         self.tmp += 1
         return f't{self.tmp}'
+
+    def resolve(self, ch):
+        """python name / attribute chain -> the chain the kernel interface is keyed on"""
+        ch = self.local_alias.get(ch, ch)
+        head, _, rest = ch.partition('.')
+        if head not in self.defined:
+            if head in self.param_alias:
+                ch = self.param_alias[head] + ('.' + rest if rest else '')
+            elif head in self.enclosing_alias:
+                ch = self.enclosing_alias[head] + ('.' + rest if rest else '')
+        return ch
 
     # ---------------- expressions -----------------
     # returns (binds, text, typ) where binds is a list of (name, res-expression text)
@@ -120,7 +170,7 @@ class Translator:
                 raise Unsupported('attribute of a non-name')
             if isinstance(e, ast.Name) and ch in self.defined:
                 return [], ch, 'Z'
-            ch = self.local_alias.get(ch, ch)
+            ch = self.resolve(ch)
             if ch in self.k.attrs:
                 return [], self.k.attrs[ch], 'Z'
             raise Unsupported(f'free name/attribute {ch!r} not in the kernel interface')
@@ -174,7 +224,7 @@ class Translator:
             return vals[0][0], text, 'truth'
         if isinstance(e, ast.Subscript):
             ch = chain_of(e.value)
-            ch = self.local_alias.get(ch, ch)
+            ch = self.resolve(ch)
             if ch is None or ch not in self.k.seqs:
                 # mapping lookups are declared as calls on the chain + '[]'
                 key = f'{ch}[]'
@@ -198,7 +248,7 @@ class Translator:
                     raise Unsupported('bit_length of non-int')
                 return b, f'(bit_length {t})', 'Z'
             ch = chain_of(e.func)
-            ch = self.local_alias.get(ch, ch)
+            ch = self.resolve(ch)
             if ch in self.k.ident_calls and len(e.args) == 1:
                 return self.expr(e.args[0])
             if ch in self.k.calls:
@@ -376,7 +426,7 @@ class Translator:
             if len(names) == 1:
                 ch = chain_of(s.value) if isinstance(s.value, (ast.Name, ast.Attribute)) else None
                 if ch is not None:
-                    ch = self.local_alias.get(ch, ch)
+                    ch = self.resolve(ch)
                     if ch in self.k.calls or ch in self.k.ident_calls:
                         self.local_alias[names[0]] = ch
                         return self.block(rest, k_text, yields)
@@ -445,7 +495,7 @@ class Translator:
             if not isinstance(it, ast.Call):
                 raise Unsupported('for over a non-call iterable')
             ch = chain_of(it.func)
-            ch = self.local_alias.get(ch, ch)
+            ch = self.resolve(ch)
             key = f'for:{ch}'
             if key not in self.k.calls:
                 raise Unsupported(f'for over {ch!r}')
@@ -538,8 +588,9 @@ Open Scope Z_scope.
 
 '''
 
-PAIR_ATTRS = {'self': 'self', 'other': 'other', 'Prime': 'Prime', 'Double': 'Double',
+PAIR_ATTRS = {'self': 'self', 'other': 'other', 'other.BitSet.supremum': 'Prime', 'self.BitSet.supremum': 'Double',
               'bitset': 'bitset'}
+PAIR_IDENT = ['other.BitSet.fromint', 'self.BitSet.fromint']
 
 MEMBER_ATTRS = {'self._extent': 'self_extent', 'other._extent': 'other_extent',
                 'self.lattice.supremum._extent': 'sup_extent'}
@@ -548,16 +599,16 @@ KERNELS = {
     'GenMatrices': [
         Kernel('prime', 'concepts/matrices.py', 'Vectors._pair_with.prime',
                [('other', 'list Z'), ('Prime', 'Z'), ('bitset', 'Z')], 'Z',
-               attrs={'other': 'other', 'Prime': 'Prime', 'bitset': 'bitset'}, seqs=['other'],
-               ident_calls=['make_prime', 'make_double']),
+               attrs={'other': 'other', 'other.BitSet.supremum': 'Prime', 'bitset': 'bitset'}, seqs=['other'],
+               ident_calls=PAIR_IDENT, pyparams=['bitset']),
         Kernel('double', 'concepts/matrices.py', 'Vectors._pair_with.double',
                [('self', 'list Z'), ('other', 'list Z'), ('Prime', 'Z'), ('Double', 'Z'), ('bitset', 'Z')], 'Z',
                attrs=PAIR_ATTRS, seqs=['other', 'self'],
-               ident_calls=['make_prime', 'make_double']),
+               ident_calls=PAIR_IDENT, pyparams=['bitset']),
         Kernel('doubleprime', 'concepts/matrices.py', 'Vectors._pair_with.doubleprime',
                [('self', 'list Z'), ('other', 'list Z'), ('Prime', 'Z'), ('Double', 'Z'), ('bitset', 'Z')], 'Z * Z',
                attrs=PAIR_ATTRS, seqs=['other', 'self'],
-               ident_calls=['make_prime', 'make_double']),
+               ident_calls=PAIR_IDENT, pyparams=['bitset']),
     ],
     'GenMembers': [
         Kernel(name, 'concepts/lattice_members.py', f'{cls}.{name}',
@@ -600,8 +651,8 @@ def translate_kernel(repo, k):
     path = os.path.join(repo, k.file)
     with open(path, encoding='utf-8') as f:
         tree = ast.parse(f.read())
-    func = find_function(tree, k.qualname)
-    tr = Translator(k, func)
+    func, enclosing = find_function(tree, k.qualname)
+    tr = Translator(k, func, enclosing)
     return tr.translate()
 
 
